@@ -821,8 +821,9 @@ fn read_if(cur: &mut SourceCursor, song: &mut Song) -> Token {
         return Token::new_empty("ERROR:IF", cur.line);
     }
     // read then block
+    let then_lineno = cur.line; // the block starts on this line
     let then_s = cur.get_token_nest('{', '}');
-    let then_tok = lex(song, &then_s, cur.line);
+    let then_tok = lex(song, &then_s, then_lineno);
     let mut else_tok = vec![];
     cur.skip_space_ret();
     // read else block
@@ -1399,8 +1400,9 @@ fn read_sysex(cur: &mut SourceCursor, _song: &mut Song) -> Token {
 
 fn read_command_sub(cur: &mut SourceCursor, song: &mut Song) -> Token {
     cur.skip_space();
+    let lineno = cur.line; // the block starts on this line
     let block = cur.get_token_nest('{', '}');
-    let tokens = lex(song, &block, cur.line);
+    let tokens = lex(song, &block, lineno);
     let mut tok = Token::new(TokenType::Sub, 0, vec![]);
     tok.children = Some(tokens);
     tok
@@ -1418,9 +1420,10 @@ fn read_command_div(cur: &mut SourceCursor, song: &mut Song, need2back: bool) ->
     } else {
         cur.skip_space();
     }
+    let lineno = cur.line; // the block starts on this line
     let block = cur.get_token_nest('{', '}');
     let len_s = cur.get_note_length();
-    let tokens = lex(song, &block, cur.line);
+    let tokens = lex(song, &block, lineno);
     // count note
     let mut cnt = 0;
     for t in tokens.iter() {
@@ -1485,7 +1488,7 @@ fn read_command_rhythm(cur: &mut SourceCursor, song: &mut Song) -> Token {
         }
     }
     let mut t = Token::new_value(TokenType::Tokens, 0);
-    t.children = Some(lex(song, &result, cur.line));
+    t.children = Some(lex(song, &result, line_start));
     t
 }
 
